@@ -1771,8 +1771,9 @@ def rule_xsd_gkf(ctx):
                             "schema element and that the schema itself does not declare)")
         if want is not None:
             want |= {a for a in aliases if aliases[a]["of"] in want}
+        lenient = []
         if want is None:
-            problems.append("element accepted by the parser is not declared in %s" % T["schema"])
+            lenient.append("element accepted by the parser is not declared in %s" % T["schema"])
             want = set()
         for x in sorted(ext):
             if x not in got or x in want:
@@ -1780,13 +1781,17 @@ def rule_xsd_gkf(ctx):
         extra = got - want - set(ext)
         missing = want - got
         if extra:
-            problems.append("parser accepts child element(s) %s that the schema does not allow" % sorted(extra))
+            lenient.append("parser accepts child element(s) %s that the schema does not allow" % sorted(extra))
         if missing:
             problems.append("schema allows child element(s) %s that the parser refuses" % sorted(missing))
         n_children += 1
+        # accepting more than the documented grammar is leniency (the property only demands that documents
+        # following the grammar are accepted): recorded, not a violation
         ctx.report(RULE, "GKFparser:xsd:children:%s" % e, not problems, start_fn.where(), start_fn.short,
                    msg="; ".join(problems), detail={"parser": sorted(got), "xsd": sorted(want),
-                                                     "extensions": sorted(ext)})
+                                                     "extensions": sorted(ext), "leniency": lenient})
+        if lenient:
+            ctx.note("GKFparser <%s>: %s" % (e, "; ".join(lenient)))
         if e == DOC:
             continue
         # attributes
@@ -1808,24 +1813,28 @@ def rule_xsd_gkf(ctx):
                 first_only |= r["first_only"]
         if e not in handlers:
             problems.append("no reachable start transition accepts <%s>" % e)
+        lenient = []
         if uninspected:
-            problems.append("the attributes of <%s> are not inspected: any attribute is accepted" % e)
+            lenient.append("the attributes of <%s> are not inspected: any attribute is accepted" % e)
         if first_only:
-            problems.append("only the first attribute of <%s> is inspected (the attribute array is not read "
-                            "in a loop): further attributes are silently ignored" % e)
+            lenient.append("only the first attribute of <%s> is inspected (the attribute array is not read "
+                           "in a loop): further attributes are silently ignored" % e)
         for x in sorted(ext):
             if x not in accepted or x in want_a:
                 problems.append("stale extension entry %s" % x)
         extra = accepted - want_a - set(ext)
         missing = want_a - accepted
         if extra:
-            problems.append("parser accepts attribute(s) %s not in the schema" % sorted(extra))
-        if missing:
+            lenient.append("parser accepts attribute(s) %s not in the schema" % sorted(extra))
+        if missing and not uninspected:
             problems.append("schema attribute(s) %s are refused by the parser" % sorted(missing))
         n_attrs += 1
         ctx.report(RULE, "GKFparser:xsd:attrs:%s" % e, not problems, start_fn.where(),
                    ", ".join(sorted(hnames)), msg="; ".join(problems),
-                   detail={"parser": sorted(accepted), "xsd": sorted(want_a), "extensions": sorted(ext)})
+                   detail={"parser": sorted(accepted), "xsd": sorted(want_a), "extensions": sorted(ext),
+                           "leniency": lenient})
+        if lenient:
+            ctx.note("GKFparser <%s>: %s" % (e, "; ".join(lenient)))
     ctx.floor(RULE, 20, n_children, "GKFparser elements compared with the schema (children)")
     ctx.floor(RULE, 19, n_attrs, "GKFparser elements compared with the schema (attributes)")
 
